@@ -85,6 +85,14 @@ class Run:
                 "events": jsonable(path), "cycle": jsonable(cyc), "seed": SEED,
             })
 
+    def found_something(self) -> bool:
+        """True once an (unlisted or listed) violation was recorded: quick tiers skip their remaining large
+        worlds then - the verdict is already decided, and a defect may make later graphs unboundedly large."""
+        return bool(self.violations)
+
+    def skip(self, world):
+        self.extra.setdefault("skipped_after_violation", []).append(world.describe())
+
     def add_all(self, results, **kw):
         for r in results:
             self.add(r, **kw)
